@@ -93,11 +93,12 @@ open Moto Moto.Disk
     exactly the bytes it read before — whoever wrote the image, however fragmented the chains. -/
 theorem old_files_intact (sd sd' : Side) (bat : List Nat) (content : Bytes) (name ext : Str) (kind flag : Nat)
     (hw : C11.WFSide sd) (hb : getBat sd = .ok bat)
+    (h40 : isFree (bat.getD 40 0) = false) (h41 : isFree (bat.getD 41 0) = false)
     (hres : writeFile sd content name ext kind flag = .ok sd') (e : Entry)
     (hdisj : ∀ b ∈ e.blocks, b ∉ chosen bat (reqBlocks content.length) ∧ b ≠ 40 ∧ b ≠ 41)
     (hlast : ∀ last, e.blocks.getLast? = some last → bat.getD last 0 ≤ 200) :
     readFile sd' (linkChain bat (chosen bat (reqBlocks content.length)) (lastSectorsOf content.length)) e = readFile sd bat e :=
-  writeFile_preserves sd sd' bat content name ext kind flag hw hb hres e hdisj hlast
+  writeFile_preserves sd sd' bat content name ext kind flag hw hb h40 h41 hres e hdisj hlast
 
 /-- blocks in use are never chosen for the new file: the disjointness hypothesis above holds for
     every chain made of non-free blocks -/
